@@ -218,3 +218,26 @@ Proof. reflexivity. Qed.
 
 Theorem coro_call_plain_one : forall a n, coro_call_allocs a IUnique n = 1.
 Proof. destruct a; reflexivity. Qed.
+
+(* ---------------------------------------------------------------------------------------------- payload copies *)
+
+Lemma no_error_copies :
+  (forall p ov, ecopies ov p = 0) /\
+  (forall f s, ecopies_fn f s = 0) /\
+  (forall b, forall par v sh s, ecopies_fn (Fn par v sh b) s = 0) /\
+  (forall ps m, ecopies_pipes m ps = 0).
+Proof.
+  apply pipe_mutind; intros; cbn [ecopies ecopies_fn ecopies_pipes error_param_copies]; try reflexivity;
+    repeat match goal with H : forall _, _ = 0 |- _ => rewrite H end; try reflexivity.
+  - apply (H par v sh s).
+  - destruct (invoked par s); reflexivity.
+  - destruct (invoked par s); reflexivity.
+  - destruct (invoked par s); reflexivity.
+  - destruct (invoked par s); reflexivity.
+  - destruct (invoked par s); reflexivity.
+  - destruct (invoked par s); reflexivity.
+  - destruct m; destruct (st (eval None p)); reflexivity.
+Qed.
+
+Theorem payload_never_copied : forall p, value_copies p = 0 /\ error_copies p = 0.
+Proof. intro p. split; [reflexivity | apply (proj1 no_error_copies p None)]. Qed.
